@@ -1,5 +1,8 @@
 #pragma once
 
+#include <yaclib/config.hpp>
+
+#include <atomic>
 #include <cstdint>
 
 namespace yaclib {
@@ -16,6 +19,37 @@ void InjectFault() noexcept;
 std::uint64_t GetInjectedCount() noexcept;
 
 }  // namespace yaclib
+
+#if defined(YACLIB_VERIF) && YACLIB_FAULT == 2
+namespace yaclib::detail {
+
+// Verification-only synchronization trace (fiber backend): every atomic operation, fence, mutex acquire/release and
+// thread start/exit/join is reported together with its memory order, so an external monitor can track happens-before.
+// kind: 0 load, 1 store, 2 read-modify-write, 3 failed compare_exchange given only its success order, 4 fence,
+//       5 mutex acquired, 6 mutex about to be released, 7 thread started (arg = its id), 8 thread function finished,
+//       9 thread joined (arg = its id)
+using VerifSyncHook = void (*)(int kind, const volatile void* object, int order, unsigned long long arg);
+
+extern VerifSyncHook gVerifSyncHook;
+
+inline void VerifSync(int kind, const volatile void* object, std::memory_order order) noexcept {
+  if (auto* hook = gVerifSyncHook; hook != nullptr) {
+    hook(kind, object, static_cast<int>(order), 0);
+  }
+}
+
+inline void VerifSync(int kind, const volatile void* object, unsigned long long arg) noexcept {
+  if (auto* hook = gVerifSyncHook; hook != nullptr) {
+    hook(kind, object, 0, arg);
+  }
+}
+
+}  // namespace yaclib::detail
+
+#  define YACLIB_VERIF_SYNC(kind, object, order_or_arg) ::yaclib::detail::VerifSync(kind, object, order_or_arg)
+#else
+#  define YACLIB_VERIF_SYNC(kind, object, order_or_arg) ((void)0)
+#endif
 
 #define YACLIB_INJECT_FAULT(statement)                                                                                 \
   yaclib::InjectFault();                                                                                               \
